@@ -302,7 +302,7 @@ func report(l *Loaded, cfg *Config, spec *Spec, obs []*Obligation, results map[s
 			"inconclusive":        inconclusives,
 			"exhaustive":          false,
 		},
-		"assumptions": spec.Assumptions,
+		"assumptions": append([]string{"go/ssa faithfully represents the Go source of the working tree", "sync.Mutex/atomic work as documented (modelled as ghost lock bits / plain accesses)", "log/fmt printing has no effect on the property (no-ops)"}, spec.Assumptions...),
 		"wall_s":      wall,
 		"violations":  violations,
 	}
